@@ -12,6 +12,7 @@ TARGETS = [
     ("C11", "src/term.rs", ["free_variables"]),
     ("C02", "src/evaluator.rs", ["is_value", "step", "evaluate"]),
     ("C07", "src/parser.rs", ["reassociate_applications", "reassociate_products_and_quotients", "reassociate_sums_and_differences"]),
+    ("C08", "src/parser.rs", ["resolve_variables", "collect_definitions", "parse"]),
 ]
 RULES = [
     ("plus1-drop", r" \+ 1\b", ""), ("plus1-2", r" \+ 1\b", " + 2"), ("minus1-drop", r" - 1\b", ""),
@@ -27,6 +28,9 @@ RULES = [
     ("group-flip", r"group: true", "group: false"), ("group-flip2", r"group: false", "group: true"),
     ("some-none", r"\bSome\(acc\)", "None"), ("grouped-not", r"\.group \{", ".group == false {"),
     ("skip1-0", r"\.skip\(1\)", ".skip(0)"), ("index-plus", r"\bindex_plus_one\b", "index"),
+    ("depth-newdepth", r"\bnew_depth\b", "depth"), ("depth-plus", r"\bdepth,$", "depth + 1,"), ("ctx-len-0", r"\bcontext\.len\(\)", "0"),
+    ("ne-eq-ph", r" != PLACEHOLDER_VARIABLE", " == PLACEHOLDER_VARIABLE"), ("domain-body", r"\bdomain,$", "body,"),
+    ("insert-drop", r"^(\s*)(\w+)\.insert\((.*), depth( \+ i)?\);$", r"\1let _ = (\3, depth);"), ("is-empty-not", r"if errors\.is_empty\(\)", "if !errors.is_empty()"),
 ]
 
 
